@@ -54,6 +54,39 @@ func main() {
 		code := cmdCheck(os.Args[2:])
 		pprof.StopCPUProfile()
 		os.Exit(code)
+	case "check-all":
+		// developer tool: every property on one loaded program, evidence written under VERIF_DIR (use a scratch dir)
+		fs := flag.NewFlagSet("check-all", flag.ExitOnError)
+		repo := fs.String("repo", "/repo", "repository to analyse")
+		fs.Parse(os.Args[2:])
+		p, err := loadProg(*repo, "")
+		if err != nil {
+			fmt.Println("load failure:", err)
+			os.Exit(1)
+		}
+		var ids []string
+		for id := range registry {
+			ids = append(ids, id)
+		}
+		sort.Strings(ids)
+		bad := 0
+		for _, id := range ids {
+			c, err := newCtx(p, id, "quick")
+			if err != nil {
+				fmt.Println(err)
+				os.Exit(2)
+			}
+			for _, r := range append([]rule{{name: "R0", run: ruleR0}}, registry[id].rules...) {
+				runRule(c, r)
+			}
+			if c.finish(time.Now(), registry[id].explanation, nil, 0) != 0 {
+				bad++
+			}
+		}
+		if bad > 0 {
+			os.Exit(1)
+		}
+		return
 	case "explain":
 		if len(os.Args) < 3 {
 			usage()
